@@ -75,10 +75,12 @@ Proof.
     destruct (info_simple_type x) as [kvs [ty [Ei [El [N1 N2]]]]].
     exists (TS x'). unfold build_from_info, info. rewrite Ei. cbn [vlist obind]. rewrite El. cbn [vstr obind]. rewrite N1, N2.
     rewrite <- Ei, E1. simpl. now rewrite E2.
-  - apply andb_prop in Hg. destruct Hg as [Hg H2]. apply andb_prop in Hg. destruct Hg as [Hg Hb]. destruct b; [discriminate |].
+  - destruct Hwf as [Hwf Hby]. apply andb_prop in Hg. destruct Hg as [Hg H2].
     destruct (build_margs_info ms Hwf Hg) as [ms' [E1 [E2 E3]]].
-    exists (TTe ms' None false). unfold build_from_info, info. cbn -[omap build_simple Nat.ltb]. rewrite E1. cbn -[Nat.ltb].
-    rewrite E3. assert (2 <= List.length ms)%nat by (destruct ms as [| ? [| ? ?]]; simpl in *; try discriminate; lia). destruct (List.length ms <? 2)%nat eqn:E; [apply Nat.ltb_lt in E; lia |].
+    exists (TTe ms' b false). unfold build_from_info, info. cbn -[omap build_simple Nat.ltb oz_of_v v_of_oz by_ok]. rewrite E1.
+    cbn -[Nat.ltb oz_of_v v_of_oz by_ok]. rewrite oz_of. cbn -[Nat.ltb by_ok].
+    rewrite E3. assert (2 <= List.length ms)%nat by (destruct ms as [| ? [| ? ?]]; simpl in *; try discriminate; lia).
+    destruct (List.length ms <? 2)%nat eqn:E; [apply Nat.ltb_lt in E; lia |]. rewrite Hby.
     split; [reflexivity |]. simpl. now rewrite E2.
 Qed.
 
@@ -108,16 +110,11 @@ Qed.
 (* ------------------------------------------------------------------ witnesses: the unguarded statement is false *)
 Definition w_spline : sset := mkS 0 6 3 [NF 3 (-2)] [Some "auto"] [None] "ps" "numerical" None None false.
 Definition w_knots : term := TS (SS (mkS 0 6 3 [NF 3 (-2)] [Some "auto"] [None] "ps" "numerical" None (Some [NI (-1); NI 2]) false)).
-Definition w_tensor_by : term :=
-  TTe [SS (mkS 0 4 3 [NF 3 (-2)] [Some "auto"] [None] "ps" "numerical" None None false);
-       SS (mkS 1 4 3 [NF 3 (-2)] [Some "auto"] [None] "ps" "numerical" None None false)] (Some 2%Z) false.
 (* a factor term after `termlist.spline_order = 2` (s(0) + f(1)) *)
 Definition w_factor_order : term := TS (SF (mkS 1 20 2 [NF 3 (-2)] [Some "auto"] [None] "ps" "categorical" None None false) "one-hot").
 
 Lemma w_knots_refutes : wf_term w_knots /\ forall t', build_from_info (info w_knots) = Some t' -> behav t' <> behav w_knots.
 Proof. split; [reflexivity |]. intros t' H. vm_compute in H. inversion H; subst. vm_compute. discriminate. Qed.
-Lemma w_tensor_by_refutes : wf_term w_tensor_by /\ forall t', build_from_info (info w_tensor_by) = Some t' -> behav t' <> behav w_tensor_by.
-Proof. split; [repeat constructor |]. intros t' H. vm_compute in H. inversion H; subst. vm_compute. discriminate. Qed.
 Lemma w_factor_order_refutes : wf_term w_factor_order /\
   (exists ts, tl_set "spline_order" (VInt 2) [TS (SS w_spline); TS (SF (mkS 1 20 0 [NF 3 (-2)] [Some "auto"] [None] "ps" "categorical" None None false) "one-hot")]
               = (Ok, ts) /\ nth 1 ts (TI false) = w_factor_order) /\
